@@ -10,8 +10,8 @@ package streams
 //	           bytes the handler produced, no net/http framing on top)
 //	codeclaw   the codec laws the theorems assume, sampled against compress/gzip and the real brotli
 //	           encoder/decoder (labelled as a test, not a proof)
-//	kf.C06-*   fixed witness tables of the known findings (recomphdr cases); kf.C06-a is the
-//	           repaired finding's table and runs as a regression stream (every case must pass)
+//	kf.C06-*   fixed witness tables of the known findings (recomphdr cases); kf.C06-a and kf.C06-d
+//	           are repaired findings' tables and run as regression streams (every case must pass)
 //
 // Bodies travel through the protocol in a *canonical codec-term form*: the harness peels real
 // gzip / brotli layers with independent decoders (compress/gzip, itchio/go-brotli/dec) and writes
@@ -489,6 +489,9 @@ var kfC06c = []hdrCase{
 	buildHdrCase(true, true, "gzipped", "identity", "application/json", nil, nil, false, false, []byte(`{"k":1}`)),
 	buildHdrCase(true, true, "vibrato, deflate", "gzip", "image/png", nil, nil, true, false, gz([]byte("hello world"), 6)),
 }
+// kfC06d: the former finding C06-d (no-transform on a Cache-Control line other than the first was
+// missed by Header.Get), repaired in proxy.go (the gate tests all Cache-Control lines); regression
+// cases: the origin's response must arrive unchanged.
 var kfC06d = []hdrCase{
 	buildHdrCase(true, true, "gzip", "-", "text/html", []string{"max-age=60", "no-transform"}, nil, true, false, []byte("hello world")),
 	buildHdrCase(true, true, "br", "gzip", "image/png", []string{"public", "no-transform"}, nil, true, false, gz([]byte("hello world"), 6)),
